@@ -247,7 +247,10 @@ func run(r *harness.Run) {
 	secrets := []string{"aSecretKey", "otherKey"}
 	servers := []string{"a.org", "b.org:8448"}
 	users := []string{"@u:a.org", "@v:a.org", "dave", "user_17:a.org"} // tokens are also issued for localparts and other non-@ identifiers
-	durations := []int{0, 1, 2, 59, 60, 61, 120, 3600, -1}
+	durations := []int{0, 1, 2, 59, 60, 61, 120, 3600, -1,
+		// durations around the points where seconds stop fitting other units (2^31, 2^32 seconds; 2^63 nanoseconds is
+		// 9 223 372 036 s; 2^64 ns; 2^63 microseconds): a lifetime is a number of seconds, whatever its size or sign
+		1<<31 - 1, 1 << 31, 1 << 32, 9_223_372_036, 9_223_372_037, 18_446_744_074, 1 << 40, 9_223_372_036_855, -9_223_372_037, -18_446_744_074, -(1 << 40)}
 	base := int64(1_700_000_040) // 1_700_000_040 % 60 == 0
 	if base%60 != 0 {
 		panic("base not on a minute boundary")
